@@ -1,6 +1,364 @@
+(* Properties/C01.v — C01: "Add, subtract, negate, abs are exact mod 2^BITS in every
+   overflow mode".  Statements only; proofs are in Proofs/AddSub.v (+ AddSubLemmas.v, Bitwise.v).
+   Notation in comments: A = uval w a, SA = sval w a, M = Mod w n = 2^BITS.
+   Side-condition sets: (H0) 0 < w, operands well-formed, any n;
+                     (H1) H0 and 0 < n  (anything reading a sign bit, or adding the constant ONE);
+                     (H2) H0 and 1 < bits w n  (signed carrying_add / borrowing_sub: +ONE must be +1);
+                     (H3) 2 <= w and 0 < n  (midpoint: shift by one bit stays inside a digit). *)
 From Bnum Require Import Base Prim.
 From Bnum.Model Require Import Digit Core Shift AddSub.
+From Bnum.Proofs Require Import AddSub.
 
-Theorem C01_placeholder : forall w n ds, 0 <= w -> wf w n ds -> 0 <= uval w ds < Mod w n.
-Proof. exact uval_bounds. Qed.
-Print Assumptions C01_placeholder.
+
+(* ---- 1. unsigned overflowing add / sub ---- *)
+
+Theorem C01_U_overflowing_add w n a b : 0 < w -> wf w n a -> wf w n b ->
+  let '(r, f) := U_overflowing_add w a b in
+  wf w n r /\ uval w r = (uval w a + uval w b) mod Mod w n /\
+  f = (Mod w n <=? uval w a + uval w b).
+Proof. exact (U_overflowing_add_ok w n a b). Qed.
+Print Assumptions C01_U_overflowing_add.
+
+Theorem C01_U_overflowing_sub w n a b : 0 < w -> wf w n a -> wf w n b ->
+  let '(r, f) := U_overflowing_sub w a b in
+  wf w n r /\ uval w r = (uval w a - uval w b) mod Mod w n /\
+  f = (uval w a <? uval w b).
+Proof. exact (U_overflowing_sub_ok w n a b). Qed.
+Print Assumptions C01_U_overflowing_sub.
+
+(* ---- 2. unsigned add_signed / neg ---- *)
+
+Theorem C01_U_overflowing_add_signed w n a b : 0 < w -> (0 < n)%nat -> wf w n a -> wf w n b ->
+  let '(r, f) := U_overflowing_add_signed w a b in
+  wf w n r /\ uval w r = (uval w a + sval w b) mod Mod w n /\
+  f = negb (inU (Mod w n) (uval w a + sval w b)).
+Proof. exact (U_overflowing_add_signed_ok w n a b). Qed.
+Print Assumptions C01_U_overflowing_add_signed.
+
+Theorem C01_U_overflowing_neg w n a : 0 < w -> (0 < n)%nat -> wf w n a ->
+  let '(r, f) := U_overflowing_neg w a in
+  wf w n r /\ uval w r = (- uval w a) mod Mod w n /\
+  f = negb (uval w a =? 0).
+Proof. exact (U_overflowing_neg_ok w n a). Qed.
+Print Assumptions C01_U_overflowing_neg.
+
+(* ---- 3. unsigned carrying_add / borrowing_sub ---- *)
+
+Theorem C01_U_carrying_add w n a b c : 0 < w -> (0 < n)%nat -> wf w n a -> wf w n b ->
+  let '(r, f) := U_carrying_add w a b c in
+  wf w n r /\ uval w r = (uval w a + uval w b + b2z c) mod Mod w n /\
+  f = (Mod w n <=? uval w a + uval w b + b2z c).
+Proof. exact (U_carrying_add_ok w n a b c). Qed.
+Print Assumptions C01_U_carrying_add.
+
+Theorem C01_U_borrowing_sub w n a b c : 0 < w -> (0 < n)%nat -> wf w n a -> wf w n b ->
+  let '(r, f) := U_borrowing_sub w a b c in
+  wf w n r /\ uval w r = (uval w a - uval w b - b2z c) mod Mod w n /\
+  f = (uval w a <? uval w b + b2z c).
+Proof. exact (U_borrowing_sub_ok w n a b c). Qed.
+Print Assumptions C01_U_borrowing_sub.
+
+(* ---- 4. signed overflowing family, carrying / borrowing ---- *)
+
+Theorem C01_I_overflowing_add w n a b : 0 < w -> (0 < n)%nat -> wf w n a -> wf w n b ->
+  let '(r, f) := I_overflowing_add w a b in
+  wf w n r /\ sval w r = wrapS (Mod w n) (sval w a + sval w b) /\
+  f = negb (inS (Mod w n) (sval w a + sval w b)).
+Proof. exact (I_overflowing_add_ok w n a b). Qed.
+Print Assumptions C01_I_overflowing_add.
+
+Theorem C01_I_overflowing_sub w n a b : 0 < w -> (0 < n)%nat -> wf w n a -> wf w n b ->
+  let '(r, f) := I_overflowing_sub w a b in
+  wf w n r /\ sval w r = wrapS (Mod w n) (sval w a - sval w b) /\
+  f = negb (inS (Mod w n) (sval w a - sval w b)).
+Proof. exact (I_overflowing_sub_ok w n a b). Qed.
+Print Assumptions C01_I_overflowing_sub.
+
+Theorem C01_I_overflowing_neg w n a : 0 < w -> (0 < n)%nat -> wf w n a ->
+  let '(r, f) := I_overflowing_neg w a in
+  wf w n r /\ sval w r = wrapS (Mod w n) (- sval w a) /\
+  f = negb (inS (Mod w n) (- sval w a)).
+Proof. exact (I_overflowing_neg_ok w n a). Qed.
+Print Assumptions C01_I_overflowing_neg.
+
+Theorem C01_I_overflowing_abs w n a : 0 < w -> (0 < n)%nat -> wf w n a ->
+  let '(r, f) := I_overflowing_abs w a in
+  wf w n r /\ sval w r = wrapS (Mod w n) (Z.abs (sval w a)) /\
+  f = negb (inS (Mod w n) (Z.abs (sval w a))).
+Proof. exact (I_overflowing_abs_ok w n a). Qed.
+Print Assumptions C01_I_overflowing_abs.
+
+Theorem C01_I_overflowing_add_unsigned w n a b : 0 < w -> (0 < n)%nat -> wf w n a -> wf w n b ->
+  let '(r, f) := I_overflowing_add_unsigned w a b in
+  wf w n r /\ sval w r = wrapS (Mod w n) (sval w a + uval w b) /\
+  f = negb (inS (Mod w n) (sval w a + uval w b)).
+Proof. exact (I_overflowing_add_unsigned_ok w n a b). Qed.
+Print Assumptions C01_I_overflowing_add_unsigned.
+
+Theorem C01_I_overflowing_sub_unsigned w n a b : 0 < w -> (0 < n)%nat -> wf w n a -> wf w n b ->
+  let '(r, f) := I_overflowing_sub_unsigned w a b in
+  wf w n r /\ sval w r = wrapS (Mod w n) (sval w a - uval w b) /\
+  f = negb (inS (Mod w n) (sval w a - uval w b)).
+Proof. exact (I_overflowing_sub_unsigned_ok w n a b). Qed.
+Print Assumptions C01_I_overflowing_sub_unsigned.
+
+Theorem C01_I_carrying_add w n a b c : 0 < w -> 1 < bits w n -> wf w n a -> wf w n b ->
+  let '(r, f) := I_carrying_add w a b c in
+  wf w n r /\ sval w r = wrapS (Mod w n) (sval w a + sval w b + b2z c) /\
+  f = negb (inS (Mod w n) (sval w a + sval w b + b2z c)).
+Proof. exact (I_carrying_add_ok w n a b c). Qed.
+Print Assumptions C01_I_carrying_add.
+
+Theorem C01_I_borrowing_sub w n a b c : 0 < w -> 1 < bits w n -> wf w n a -> wf w n b ->
+  let '(r, f) := I_borrowing_sub w a b c in
+  wf w n r /\ sval w r = wrapS (Mod w n) (sval w a - sval w b - b2z c) /\
+  f = negb (inS (Mod w n) (sval w a - sval w b - b2z c)).
+Proof. exact (I_borrowing_sub_ok w n a b c). Qed.
+Print Assumptions C01_I_borrowing_sub.
+
+(* ---- 5. projections: checked = None iff flag; wrapping = value; strict = Panic iff flag;
+   inherent op = strict when debug assertions are on, wrapping otherwise ---- *)
+
+Theorem C01_I_wrapping_add_eq w n a b : 0 < w -> (0 < n)%nat -> wf w n a -> wf w n b ->
+  I_wrapping_add w a b = fst (I_overflowing_add w a b).
+Proof. exact (I_wrapping_add_eq w n a b). Qed.
+Print Assumptions C01_I_wrapping_add_eq.
+
+Theorem C01_I_wrapping_sub_eq w n a b : 0 < w -> (0 < n)%nat -> wf w n a -> wf w n b ->
+  I_wrapping_sub w a b = fst (I_overflowing_sub w a b).
+Proof. exact (I_wrapping_sub_eq w n a b). Qed.
+Print Assumptions C01_I_wrapping_sub_eq.
+
+Theorem C01_U_add_projections w a b dbg :
+  let '(r, f) := U_overflowing_add w a b in
+  U_checked_add w a b = (if f then None else Some r) /\
+  U_wrapping_add w a b = r /\
+  U_strict_add w a b = (if f then Panic else Ret r) /\
+  U_add dbg w a b = (if f then (if dbg then Panic else Ret r) else Ret r).
+Proof. exact (U_add_projections w a b dbg). Qed.
+Print Assumptions C01_U_add_projections.
+
+Theorem C01_U_sub_projections w a b dbg :
+  let '(r, f) := U_overflowing_sub w a b in
+  U_checked_sub w a b = (if f then None else Some r) /\
+  U_wrapping_sub w a b = r /\
+  U_strict_sub w a b = (if f then Panic else Ret r) /\
+  U_sub dbg w a b = (if f then (if dbg then Panic else Ret r) else Ret r).
+Proof. exact (U_sub_projections w a b dbg). Qed.
+Print Assumptions C01_U_sub_projections.
+
+Theorem C01_U_add_signed_projections w a b :
+  let '(r, f) := U_overflowing_add_signed w a b in
+  U_checked_add_signed w a b = (if f then None else Some r) /\
+  U_wrapping_add_signed w a b = r.
+Proof. exact (U_add_signed_projections w a b). Qed.
+Print Assumptions C01_U_add_signed_projections.
+
+Theorem C01_U_checked_neg_zero w n a : 0 < w -> wf w n a ->
+  U_checked_neg a = (if uval w a =? 0 then Some a else None).
+Proof. exact (U_checked_neg_zero w n a). Qed.
+Print Assumptions C01_U_checked_neg_zero.
+
+Theorem C01_U_neg_projections w n a : 0 < w -> (0 < n)%nat -> wf w n a ->
+  let '(r, f) := U_overflowing_neg w a in
+  U_checked_neg a = (if f then None else Some r) /\
+  U_wrapping_neg w a = r /\
+  U_strict_neg a = (if f then Panic else Ret r).
+Proof. exact (U_neg_projections w n a). Qed.
+Print Assumptions C01_U_neg_projections.
+
+Theorem C01_I_add_projections w n a b dbg : 0 < w -> (0 < n)%nat -> wf w n a -> wf w n b ->
+  let '(r, f) := I_overflowing_add w a b in
+  I_checked_add w a b = (if f then None else Some r) /\
+  I_wrapping_add w a b = r /\
+  I_strict_add w a b = (if f then Panic else Ret r) /\
+  I_add dbg w a b = (if f then (if dbg then Panic else Ret r) else Ret r).
+Proof. exact (I_add_projections w n a b dbg). Qed.
+Print Assumptions C01_I_add_projections.
+
+Theorem C01_I_sub_projections w n a b dbg : 0 < w -> (0 < n)%nat -> wf w n a -> wf w n b ->
+  let '(r, f) := I_overflowing_sub w a b in
+  I_checked_sub w a b = (if f then None else Some r) /\
+  I_wrapping_sub w a b = r /\
+  I_strict_sub w a b = (if f then Panic else Ret r) /\
+  I_sub dbg w a b = (if f then (if dbg then Panic else Ret r) else Ret r).
+Proof. exact (I_sub_projections w n a b dbg). Qed.
+Print Assumptions C01_I_sub_projections.
+
+Theorem C01_I_neg_projections w a dbg :
+  let '(r, f) := I_overflowing_neg w a in
+  I_checked_neg w a = (if f then None else Some r) /\
+  I_wrapping_neg w a = r /\
+  I_strict_neg w a = (if f then Panic else Ret r) /\
+  I_neg dbg w a = (if f then (if dbg then Panic else Ret r) else Ret r).
+Proof. exact (I_neg_projections w a dbg). Qed.
+Print Assumptions C01_I_neg_projections.
+
+Theorem C01_I_abs_projections w n a dbg : 0 < w -> (0 < n)%nat -> wf w n a ->
+  let '(r, f) := I_overflowing_abs w a in
+  I_checked_abs w a = (if f then None else Some r) /\
+  I_wrapping_abs w a = r /\
+  I_strict_abs w a = (if f then Panic else Ret r) /\
+  I_abs dbg w a = (if f then (if dbg then Panic else Ret r) else Ret r).
+Proof. exact (I_abs_projections w n a dbg). Qed.
+Print Assumptions C01_I_abs_projections.
+
+Theorem C01_I_add_unsigned_projections w a b :
+  let '(r, f) := I_overflowing_add_unsigned w a b in
+  I_checked_add_unsigned w a b = (if f then None else Some r) /\
+  I_wrapping_add_unsigned w a b = r.
+Proof. exact (I_add_unsigned_projections w a b). Qed.
+Print Assumptions C01_I_add_unsigned_projections.
+
+Theorem C01_I_sub_unsigned_projections w a b :
+  let '(r, f) := I_overflowing_sub_unsigned w a b in
+  I_checked_sub_unsigned w a b = (if f then None else Some r) /\
+  I_wrapping_sub_unsigned w a b = r.
+Proof. exact (I_sub_unsigned_projections w a b). Qed.
+Print Assumptions C01_I_sub_unsigned_projections.
+
+(* ---- 6. saturating = clamp of the exact result ---- *)
+
+Theorem C01_U_saturating_add w n a b : 0 < w -> wf w n a -> wf w n b ->
+  wf w n (U_saturating_add w a b) /\
+  uval w (U_saturating_add w a b) = Z.min (Mod w n - 1) (uval w a + uval w b).
+Proof. exact (U_saturating_add_ok w n a b). Qed.
+Print Assumptions C01_U_saturating_add.
+
+Theorem C01_U_saturating_sub w n a b : 0 < w -> wf w n a -> wf w n b ->
+  wf w n (U_saturating_sub w a b) /\
+  uval w (U_saturating_sub w a b) = Z.max 0 (uval w a - uval w b).
+Proof. exact (U_saturating_sub_ok w n a b). Qed.
+Print Assumptions C01_U_saturating_sub.
+
+Theorem C01_U_saturating_add_signed w n a b : 0 < w -> (0 < n)%nat -> wf w n a -> wf w n b ->
+  wf w n (U_saturating_add_signed w a b) /\
+  uval w (U_saturating_add_signed w a b) = Z.max 0 (Z.min (Mod w n - 1) (uval w a + sval w b)).
+Proof. exact (U_saturating_add_signed_ok w n a b). Qed.
+Print Assumptions C01_U_saturating_add_signed.
+
+Theorem C01_I_saturating_add w n a b : 0 < w -> (0 < n)%nat -> wf w n a -> wf w n b ->
+  wf w n (I_saturating_add w a b) /\
+  sval w (I_saturating_add w a b) = Z.max (- (Mod w n / 2)) (Z.min (Mod w n / 2 - 1) (sval w a + sval w b)).
+Proof. exact (I_saturating_add_ok w n a b). Qed.
+Print Assumptions C01_I_saturating_add.
+
+Theorem C01_I_saturating_sub w n a b : 0 < w -> (0 < n)%nat -> wf w n a -> wf w n b ->
+  wf w n (I_saturating_sub w a b) /\
+  sval w (I_saturating_sub w a b) = Z.max (- (Mod w n / 2)) (Z.min (Mod w n / 2 - 1) (sval w a - sval w b)).
+Proof. exact (I_saturating_sub_ok w n a b). Qed.
+Print Assumptions C01_I_saturating_sub.
+
+Theorem C01_I_saturating_add_unsigned w n a b : 0 < w -> (0 < n)%nat -> wf w n a -> wf w n b ->
+  wf w n (I_saturating_add_unsigned w a b) /\
+  sval w (I_saturating_add_unsigned w a b) = Z.max (- (Mod w n / 2)) (Z.min (Mod w n / 2 - 1) (sval w a + uval w b)).
+Proof. exact (I_saturating_add_unsigned_ok w n a b). Qed.
+Print Assumptions C01_I_saturating_add_unsigned.
+
+Theorem C01_I_saturating_sub_unsigned w n a b : 0 < w -> (0 < n)%nat -> wf w n a -> wf w n b ->
+  wf w n (I_saturating_sub_unsigned w a b) /\
+  sval w (I_saturating_sub_unsigned w a b) = Z.max (- (Mod w n / 2)) (Z.min (Mod w n / 2 - 1) (sval w a - uval w b)).
+Proof. exact (I_saturating_sub_unsigned_ok w n a b). Qed.
+Print Assumptions C01_I_saturating_sub_unsigned.
+
+Theorem C01_I_saturating_neg w n a : 0 < w -> (0 < n)%nat -> wf w n a ->
+  wf w n (I_saturating_neg w a) /\
+  sval w (I_saturating_neg w a) = Z.max (- (Mod w n / 2)) (Z.min (Mod w n / 2 - 1) (- sval w a)).
+Proof. exact (I_saturating_neg_ok w n a). Qed.
+Print Assumptions C01_I_saturating_neg.
+
+Theorem C01_I_saturating_abs w n a : 0 < w -> (0 < n)%nat -> wf w n a ->
+  wf w n (I_saturating_abs w a) /\
+  sval w (I_saturating_abs w a) = Z.max (- (Mod w n / 2)) (Z.min (Mod w n / 2 - 1) (Z.abs (sval w a))).
+Proof. exact (I_saturating_abs_ok w n a). Qed.
+Print Assumptions C01_I_saturating_abs.
+
+(* ---- 7. abs_diff, unsigned_abs ---- *)
+
+Theorem C01_U_abs_diff w n a b : 0 < w -> wf w n a -> wf w n b ->
+  wf w n (U_abs_diff w a b) /\ uval w (U_abs_diff w a b) = Z.abs (uval w a - uval w b).
+Proof. exact (U_abs_diff_ok w n a b). Qed.
+Print Assumptions C01_U_abs_diff.
+
+Theorem C01_I_abs_diff w n a b : 0 < w -> (0 < n)%nat -> wf w n a -> wf w n b ->
+  wf w n (I_abs_diff w a b) /\ uval w (I_abs_diff w a b) = Z.abs (sval w a - sval w b).
+Proof. exact (I_abs_diff_ok w n a b). Qed.
+Print Assumptions C01_I_abs_diff.
+
+Theorem C01_I_unsigned_abs w n a : 0 < w -> (0 < n)%nat -> wf w n a ->
+  wf w n (I_unsigned_abs w a) /\ uval w (I_unsigned_abs w a) = Z.abs (sval w a).
+Proof. exact (I_unsigned_abs_ok w n a). Qed.
+Print Assumptions C01_I_unsigned_abs.
+
+(* ---- 8. midpoint: never panics (in either build mode) and is exact ---- *)
+
+Theorem C01_U_midpoint dbg w n a b : 2 <= w -> (0 < n)%nat -> wf w n a -> wf w n b ->
+  exists r, U_midpoint dbg w a b = Ret r /\ wf w n r /\ uval w r = (uval w a + uval w b) / 2.
+Proof. exact (U_midpoint_ok dbg w n a b). Qed.
+Print Assumptions C01_U_midpoint.
+
+Theorem C01_I_midpoint dbg w n a b : 2 <= w -> (0 < n)%nat -> wf w n a -> wf w n b ->
+  exists r, I_midpoint dbg w a b = Ret r /\ wf w n r /\ sval w r = Z.quot (sval w a + sval w b) 2.
+Proof. exact (I_midpoint_ok dbg w n a b). Qed.
+Print Assumptions C01_I_midpoint.
+
+
+(* ---- non-vacuity: concrete well-formed operands (w = 8, n = 3, i.e. 24-bit) and what the model returns ---- *)
+
+Local Notation ok ds := (wfb 8 3 ds = true).
+
+(* H0: 16777160 + 100 wraps to 44 with carry; 100 - 16777160 borrows *)
+Example ex_U_overflowing_add_sub :
+  ok [200;255;255] /\ ok [100;0;0] /\
+  U_overflowing_add 8 [200;255;255] [100;0;0] = ([44;0;0], true) /\
+  U_overflowing_sub 8 [100;0;0] [200;255;255] = ([156;0;0], true) /\
+  U_saturating_add 8 [200;255;255] [100;0;0] = [255;255;255] /\
+  U_abs_diff 8 [100;0;0] [200;255;255] = [100;255;255] /\
+  U_add true 8 [200;255;255] [100;0;0] = Panic /\
+  U_add false 8 [200;255;255] [100;0;0] = Ret [44;0;0].
+Proof. vm_compute. repeat split; reflexivity. Qed.
+
+(* H1: 100 + (-3) = 97 without overflow; -(100) overflows in the unsigned type; carry-in *)
+Example ex_U_signed_neg_carry :
+  ok [100;0;0] /\ ok [253;255;255] /\ sval 8 [253;255;255] = -3 /\
+  U_overflowing_add_signed 8 [100;0;0] [253;255;255] = ([97;0;0], false) /\
+  U_overflowing_neg 8 [100;0;0] = ([156;255;255], true) /\
+  U_checked_neg [0;0;0] = Some [0;0;0] /\ U_checked_neg [100;0;0] = None /\
+  U_carrying_add 8 [200;255;255] [100;0;0] true = ([45;0;0], true) /\
+  U_borrowing_sub 8 [100;0;0] [100;0;0] true = ([255;255;255], true).
+Proof. vm_compute. repeat split; reflexivity. Qed.
+
+(* H1, signed: MAX + 1 wraps to MIN with overflow; -MIN = MIN with overflow; |-3| = 3 *)
+Example ex_I_overflowing :
+  ok [255;255;127] /\ ok [1;0;0] /\ ok [0;0;128] /\
+  sval 8 [255;255;127] = 8388607 /\ sval 8 [0;0;128] = -8388608 /\
+  I_overflowing_add 8 [255;255;127] [1;0;0] = ([0;0;128], true) /\
+  I_overflowing_sub 8 [0;0;128] [1;0;0] = ([255;255;127], true) /\
+  I_overflowing_neg 8 [0;0;128] = ([0;0;128], true) /\
+  I_overflowing_abs 8 [253;255;255] = ([3;0;0], false) /\
+  I_overflowing_add_unsigned 8 [253;255;255] [200;255;255] = ([197;255;255], true) /\
+  I_overflowing_sub_unsigned 8 [1;0;0] [200;255;255] = ([57;0;0], true) /\
+  I_saturating_add 8 [255;255;127] [1;0;0] = [255;255;127] /\
+  I_saturating_neg 8 [0;0;128] = [255;255;127] /\
+  I_abs true 8 [0;0;128] = Panic /\ I_abs false 8 [0;0;128] = Ret [0;0;128] /\
+  I_wrapping_add 8 [255;255;127] [1;0;0] = [0;0;128] /\
+  I_abs_diff 8 [253;255;255] [1;0;0] = [4;0;0] /\
+  I_unsigned_abs 8 [253;255;255] = [3;0;0].
+Proof. vm_compute. repeat split; reflexivity. Qed.
+
+(* H2: 1 < bits 8 3; MAX + 0 + carry overflows, MIN - 0 - borrow overflows *)
+Example ex_I_carrying :
+  1 < bits 8 3 /\ ok [255;255;127] /\ ok [0;0;0] /\ ok [0;0;128] /\
+  I_carrying_add 8 [255;255;127] [0;0;0] true = ([0;0;128], true) /\
+  I_borrowing_sub 8 [0;0;128] [0;0;0] true = ([255;255;127], true).
+Proof. vm_compute. repeat split; reflexivity. Qed.
+
+(* H3: midpoints whose naive sum overflows; (-3 + 0) quot 2 = -1 (towards zero, not floor) *)
+Example ex_midpoint :
+  2 <= 8 /\ ok [200;255;255] /\ ok [253;255;255] /\ ok [0;0;128] /\ ok [255;255;127] /\
+  U_midpoint true 8 [200;255;255] [200;255;255] = Ret [200;255;255] /\
+  U_midpoint true 8 [200;255;255] [100;0;0] = Ret [22;0;128] /\
+  I_midpoint true 8 [253;255;255] [0;0;0] = Ret [255;255;255] /\
+  I_midpoint true 8 [0;0;128] [253;255;255] = Ret [255;255;191] /\
+  I_midpoint true 8 [255;255;127] [255;255;127] = Ret [255;255;127].
+Proof. vm_compute. repeat split; try reflexivity; discriminate. Qed.
